@@ -276,13 +276,21 @@ func genGoValue(r *rand.Rand, vc *valCfg, t reflect.Type, depth int) reflect.Val
 	switch t {
 	case rawType:
 		cfg := &genCfg{maxDepth: 2, maxWidth: 2, maxStr: 4, ws: true, escapes: true, unicode: true, simpleNums: true}
-		if r.IntN(6) != 0 {
+		if r.IntN(12) == 0 { // many members, one of them repeated
+			v.SetBytes(wideByID(100 + r.IntN(400)))
+		} else if r.IntN(6) != 0 {
 			v.SetBytes(genText(r, cfg))
 		}
 		return v
 	case timeType:
-		secs := []int64{0, 1, -1, 951782400, 253402300799, -62135596800, math.MaxInt32, 1<<32 + 123}[r.IntN(8)]
+		// around the epoch, the ends of the four-digit years, and where the count of
+		// nanoseconds since the epoch passes 2^63 and 2^64 (years 2262 / 1677 and 2554 / 1385)
+		secs := []int64{0, 1, -1, 951782400, 253402300799, -62135596800, math.MaxInt32, 1<<32 + 123,
+			9223372036, 9223372037, -9223372036, -9223372037, 18446744073, 18446744074, -18446744073, -18446744074}[r.IntN(16)]
 		tm := time.Unix(secs, int64(r.IntN(2))*int64(r.IntN(1e9))).UTC()
+		if r.IntN(4) == 0 {
+			tm = time.Unix(secs, []int64{0, 1, 709551615, 709551616, 854775807, 854775808, 999999999}[r.IntN(7)]).UTC()
+		}
 		if vc.numericZones && r.IntN(3) == 0 {
 			h := []int{23, -23, 14, -12, 0, 1}[r.IntN(6)]
 			tm = tm.In(time.FixedZone("", h*3600+[]int{0, 1800, 3540, -1800}[r.IntN(4)]*sign(h)))
